@@ -125,9 +125,10 @@ class Decimal(SimpleModel):
 
         msl = kwargs.get('max_str_len', None)
         if msl is None:
-            kwargs['max_str_len'] = cls.Attributes.total_digits + 2
+            kwargs['max_str_len'] = cls.Attributes.total_digits + 3
             # + 1 for decimal separator
             # + 1 for negative sign
+            # + 1 for the leading zero of a pure fraction (e.g. '-0.123')
 
         else:
             kwargs['max_str_len'] = msl
